@@ -91,6 +91,55 @@ pub fn quicksort_cancelled<const L: usize>() {
     cover!(!c && cancel.load(Ordering::Relaxed), "flag raised too late to be noticed");
 }
 
+/// Concrete arrangement and cancel moment - under the SHRUNK constants, where slices of 4 and more
+/// elements are partitioned and both halves go through `rayon::join` (solver-chosen order). With concrete
+/// keys every recursive call works on a slice of concrete length, so the composite is affordable; what
+/// the solver quantifies over is the order in which the two halves of every join run.
+pub fn quicksort_cancelled_concrete<const L: usize>(perm: u32, k: u32) {
+    let base: [u8; 8] = match perm {
+        0 => [20, 4, 16, 0, 12, 8, 28, 24],
+        1 => [0, 4, 8, 12, 16, 20, 24, 28],
+        2 => [28, 24, 20, 16, 12, 8, 4, 0],
+        3 => [8, 9, 0, 1, 4, 5, 12, 13],
+        _ => [12, 0, 20, 4, 28, 8, 24, 16],
+    };
+    let mut orig = [0u8; L];
+    let mut i = 0;
+    while i < L {
+        orig[i] = base[i % 8];
+        i += 1;
+    }
+    let mut v = orig;
+    let cancel = AtomicBool::new(false);
+    // (the cancel moment is concrete per instance as well: a symbolic moment makes the lengths of the
+    // recursive calls symbolic again after the first merge point - measured: > 12 min at length 5)
+    let countdown = AtomicU32::new(k);
+    let cmp = |a: &u8, b: &u8| {
+        let c = countdown.load(Ordering::Relaxed);
+        if c == 1 {
+            cancel.store(true, Ordering::Relaxed);
+        }
+        if c > 0 {
+            countdown.store(c - 1, Ordering::Relaxed);
+        }
+        key(*a) < key(*b)
+    };
+    let c = par_quicksort(&mut v, cmp, &cancel);
+    let mut p = 0;
+    while p < L {
+        check!(count(&v, orig[p]) == count(&orig, orig[p]), "C18 the slice is a permutation of its input whether or not the sort was cancelled");
+        p += 1;
+    }
+    if !c {
+        check!(sorted(&v), "C18 a sort that reports 'not cancelled' leaves the slice sorted");
+    }
+    if !cancel.load(Ordering::Relaxed) {
+        check!(!c, "C18 'cancelled' is only reported if the flag was raised");
+    }
+    cover!(c, "cancellation reported");
+    cover!(!c && cancel.load(Ordering::Relaxed), "flag raised too late to be noticed");
+}
+
 /// `recurse` entered with a symbolic imbalance budget: limit == 0 forces the heapsort fallback,
 /// small limits force pattern breaking
 pub fn recurse_limit<const L: usize>() {
